@@ -1,6 +1,7 @@
 """C01 - reported solver success certifies the returned field."""
 import contextlib
 import io
+import re
 import warnings
 
 import numpy as np
@@ -8,32 +9,66 @@ import scipy.sparse.linalg as spla
 from hypothesis import strategies as st
 
 from vp import gen, refop
-from vp.framework import Violation
+from vp.framework import HarnessError, Violation
 
-RULE = ("Grid (2..12 cells per direction, any parity, uniform/stretched/"
-        "random), model (4 anisotropy cases, <=3 decades, optional mu_r/"
-        "epsilon_r), frequency or Laplace s with drawn induction number, "
-        "source (electric dipole/point via get_source_field or solve_source, "
-        "random field vanishing on outermost cells, random field vanishing "
-        "on the boundary, zero), initial field (none, zeros, random with "
-        "non-zero boundary, exact solution, near solution) and a solver "
-        "configuration from the full product cycle x sslsolver x "
-        "semicoarsening x linerelaxation x nu's x clevel x tol x maxit x "
-        "plain x return_info x verb x log.  Oracle: checker-assembled "
-        "operator; success => residual < tol*||s||, PEC, dtype, error "
-        "figures describe the field, zero source => zero field, report "
-        "consistency.  Non-trivial = non-zero source, >=1 iteration, "
-        "success reported; distinct by (shape, config, seeds).")
+RULE = ("Grid (2..12 cells per direction plus 16/24/32 in one direction, "
+        "<=800 cells, any parity, uniform/stretched/random), model (4 "
+        "anisotropy cases, <=3 decades, optional mu_r/epsilon_r; given as "
+        "full/Fortran/flat/scalar arrays or with a map instance; direct or "
+        "via copy/dict/pickle/deepcopy), frequency or Laplace s with drawn "
+        "induction number, source (electric dipole/point via "
+        "get_source_field or solve_source, random field vanishing on "
+        "outermost cells, random field vanishing on the boundary, zero; "
+        "direct or via touched/copy/dict/pickle/deepcopy), initial field "
+        "(none, zeros, random with non-zero boundary, exact/near solution, "
+        "exact/near solution with non-zero tangential boundary; carrying "
+        "the source's frequency, none, or another one; also through "
+        "solve_source) and a solver configuration from the full product "
+        "cycle x sslsolver x semicoarsening x linerelaxation x nu's x "
+        "clevel x tol (incl. 1e-14 and 0) x maxit (incl. 50) x plain x "
+        "return_info x verb x log, any subset of the keywords omitted "
+        "(documented defaults).  Object re-use: the drawn call may be "
+        "preceded by another solve on the same objects (same system; same "
+        "Model at another frequency / Laplace sign; Model changed and "
+        "restored through its setters; restart from the first result).  "
+        "Oracle: checker-assembled operator and the source as it was "
+        "BEFORE all calls; success => residual < tol*||s||, PEC, dtype, "
+        "frequency label, error figures (info dict, printed one-liner / "
+        "final rel. error, last error_at_cycle of pure MG) describe the "
+        "field, zero source => zero field, tol=0 never success, the "
+        "outcome told by info, by the screen and by the stored log "
+        "agree.  Non-trivial = non-zero source, >=1 iteration, success "
+        "reported; distinct by (shape, config, omitted, seeds).")
 ASSUMPTIONS = [
     "reference operator vp/refop.py (validated against emg3d by C02)",
     "residual slack tol*||s||*1e-9 + 1e4*eps*|| |A||e|+|s| ||",
     "with return_info=False the outcome is read from the printed "
     "warning/one-liner/log; verb=-1 without info has no observable report",
+    "an omitted keyword means the default of the solve() docstring; for "
+    "`log` (docstring 1, code 0) only 'is printed' is used, the stored log "
+    "is not inspected then",
+    "printed figures are compared to their printed precision (.1e: 6 %, "
+    ".3e: 6e-4) plus 10x the rounding floor",
+    "NaN/inf on the boundary is a PEC violation only under reported "
+    "success (an overflowed Krylov run reported as failure is honest)",
+    "frequency label: required for returned fields and for supplied "
+    "fields that carried the source's frequency; a supplied field without "
+    "frequency may stay None or get the source's; another frequency is "
+    "not judged",
+    "norms: emg3d uses BLAS nrm2, the checker numpy; compared at 1e-10",
 ]
 SHARDS = {'quick': 1, 'thorough': 16}
 C_EPS = 1e4*np.finfo(float).eps
 
-COUNTS = [2, 2, 3, 3, 4, 4, 5, 6, 6, 7, 8, 8, 10, 12]
+COUNTS = [2, 2, 3, 3, 4, 4, 5, 6, 6, 7, 8, 8, 10, 12, 16, 24, 32]
+
+# documented defaults of solve() (used when a keyword is omitted)
+DEFAULTS = {'cycle': 'F', 'sslsolver': True, 'semicoarsening': True,
+            'linerelaxation': True, 'nu_init': 0, 'nu_pre': 2,
+            'nu_coarse': 1, 'nu_post': 2, 'clevel': -1, 'tol': 1e-6,
+            'maxit': 50, 'return_info': False, 'verb': 0, 'log': 0}
+OMITTABLE = sorted(DEFAULTS)
+PROVS = ['direct', 'direct', 'touched', 'copy', 'dict', 'pickle', 'deepcopy']
 
 
 def config_spec():
@@ -50,13 +85,57 @@ def config_spec():
         'nu_coarse': st.sampled_from([0, 1, 1, 2, 3]),
         'nu_post': st.sampled_from([0, 1, 2, 2, 3]),
         'clevel': st.sampled_from([-1, -1, -1, 0, 1, 2, 3]),
-        'tol': gen.lgfloat(1e-10, 1e-1),
-        'maxit': st.sampled_from([1, 2, 3, 5, 10, 20, 40]),
+        # 1e-14 / 0.0: unreachable in double precision; must end as failure
+        'tol': st.tuples(st.sampled_from([None]*12 + [1e-14, 0.0]),
+                         gen.lgfloat(1e-10, 1e-1)
+                         ).map(lambda t: t[1] if t[0] is None else t[0]),
+        'maxit': st.sampled_from([1, 2, 3, 5, 10, 20, 40, 50]),
         'plain': st.booleans(),
         'return_info': st.sampled_from([True, True, True, False]),
         'verb': st.sampled_from([-1, 0, 0, 1, 2, 3, 4, 5]),
         'log': st.sampled_from([-1, 0, 1]),
     })
+
+
+def new_keys(thorough=False):
+    """Spec keys added after the first findings were recorded; every one is
+    read with spec.get(key, <value reproducing the old behaviour>)."""
+    return {
+        # keywords left out of the call (documented defaults apply)
+        'omit': st.one_of(
+            st.just([]), st.just([]), st.just([]), st.just([]), st.just([]),
+            st.lists(st.sampled_from(OMITTABLE), unique=True,
+                     max_size=len(OMITTABLE)).map(sorted),
+            st.lists(st.sampled_from(OMITTABLE), unique=True,
+                     max_size=len(OMITTABLE)).map(sorted),
+            st.just(list(OMITTABLE))),
+        # another solve on the same objects precedes the judged one
+        'reuse': st.sampled_from([None, None, None, None, 'same_all',
+                                  'new_freq', 'model_setter', 'restart']),
+        # provenance of the source field / the model, form of model input
+        'sprov': st.sampled_from(PROVS),
+        'mprov': st.sampled_from(['direct', 'direct', 'direct', 'copy',
+                                  'dict', 'pickle', 'deepcopy']),
+        'mform': st.sampled_from(['full', 'full', 'full', 'fortran', 'flat',
+                                  'scalar', 'scalar', 'mapinst']),
+        # frequency label of a supplied initial field
+        'efreq': st.sampled_from(['same', 'same', 'same', 'none', 'other']),
+        # solve_source(..., efield=...) instead of forcing a fresh field
+        'ss_init': st.just(True),
+    }
+
+
+def _tame(spec):
+    """Budget only: gcrotmk runs 20 inner steps (each one preconditioner
+    call) per counted iteration; with an unreachable tolerance it never
+    stops early, so the iteration count is capped there."""
+    cfg, omit = spec['cfg'], spec.get('omit', [])
+    tol = DEFAULTS['tol'] if 'tol' in omit else cfg['tol']
+    ssl = DEFAULTS['sslsolver'] if 'sslsolver' in omit else cfg['sslsolver']
+    if tol < 1e-10 and ssl == 'gcrotmk':
+        spec = dict(spec, cfg=dict(cfg, maxit=min(cfg['maxit'], 2)),
+                    omit=[k for k in omit if k != 'maxit'])
+    return spec
 
 
 def spec_strategy():
@@ -68,16 +147,17 @@ def spec_strategy():
                                    'random_inner', 'random_inner',
                                    'random_pec', 'zero']),
         'init': st.sampled_from(['none', 'none', 'none', 'zeros', 'random',
-                                 'random', 'exact', 'near']),
+                                 'random', 'exact', 'near', 'exact_dirty',
+                                 'near_dirty']),
         # how the caller obtained the supplied Field object
-        'prov': st.sampled_from(['direct', 'direct', 'touched', 'copy',
-                                 'dict', 'pickle', 'deepcopy']),
+        'prov': st.sampled_from(PROVS),
         'cfg': config_spec(),
         # source amplitude 10**lgamp: weak and strong sources are as legitimate
         # as O(1) ones (the system is linear)
         'lgamp': st.sampled_from([0, 0, 0, 0, -6, -12, -20, 6, 12]),
         'seed': gen.SEED,
-    }).filter(lambda s: np.prod(s['grid']['n']) <= 800)
+        **new_keys(),
+    }).filter(lambda s: np.prod(s['grid']['n']) <= 800).map(_tame)
 
 
 def _make_source(emg3d, grid, spec, freq):
@@ -138,17 +218,12 @@ def _make_source(emg3d, grid, spec, freq):
     return kind, sf, None
 
 
-def _reported(cfg, out, info):
-    """Reported outcome: 'success' / 'failure' / None (not observable)."""
-    if info is not None:
-        return 'success' if info['exit'] == 0 else 'failure'
-    v = cfg['verb']
-    if v < 0 or cfg['log'] < 0:
-        # nothing is printed (verb=-1, or log=-1 = 'log only')
-        return None
-    if v == 0:
+def _parse_report(verb, out):
+    """Outcome told by a printed (or stored) report text of verbosity
+    `verb` >= 0: 'success' / 'failure' / None (nothing to read)."""
+    if verb == 0:
         return 'failure' if '* WARNING ::' in out else 'success'
-    if v in (1, 2):
+    if verb in (1, 2):
         lines = [ln for ln in out.replace('\r', '\n').split('\n')
                  if ln.startswith(':: emg3d ::')]
         if not lines:
@@ -166,6 +241,101 @@ def _reported(cfg, out, info):
     return None
 
 
+def _reported(cfg, out, info):
+    """Reported outcome: 'success' / 'failure' / None (not observable)."""
+    if info is not None:
+        return 'success' if info['exit'] == 0 else 'failure'
+    v = cfg['verb']
+    if v < 0 or cfg['log'] < 0:
+        # nothing is printed (verb=-1, or log=-1 = 'log only')
+        return None
+    return _parse_report(v, out)
+
+
+_NUM = r'([-+]?(?:\d+\.?\d*(?:[eE][-+]?\d+)?|nan|inf))'
+
+
+def _printed_rel_error(verb, text):
+    """(value, relative printing precision) of the final relative error in
+    a report text, or None."""
+    if verb in (1, 2):
+        lines = [ln for ln in text.replace('\r', '\n').split('\n')
+                 if ln.startswith(':: emg3d ::')]
+        if not lines:
+            return None
+        m = re.match(r':: emg3d :: ' + _NUM + ';', lines[-1])
+        prec = 0.06      # '.1e': half a unit of the 2nd digit is <= 5 %
+    elif verb >= 3:
+        m = re.search(r'Final rel\. error : ' + _NUM, text)
+        prec = 6e-4      # '.3e'
+    else:
+        return None
+    if not m:
+        return None
+    return float(m.group(1)), prec
+
+
+def _provenance(emg3d, obj, prov):
+    """The same Field/Model as the caller may legitimately hold it."""
+    import copy as _copy
+    import pickle
+    if prov == 'copy':
+        return obj.copy()
+    if prov == 'dict':
+        return type(obj).from_dict(obj.to_dict())
+    if prov == 'pickle':
+        return pickle.loads(pickle.dumps(obj))
+    if prov == 'deepcopy':
+        return _copy.deepcopy(obj)
+    return obj                                   # direct, touched
+
+
+def _build_model(emg3d, grid, mspec, bg, form):
+    """-> (Model, conductivities..., form actually used).  form 'full'
+    is gen.build_model (3-D C-ordered arrays); the others are the further
+    input forms Model accepts: Fortran-ordered 3-D arrays, flat 1-D arrays
+    in Fortran order, scalars (homogeneous properties only), the mapping
+    given as map instance."""
+    if form == 'full':
+        model, conds = gen.build_model(grid, mspec, bg)
+        return model, conds, form
+    conds = gen.build_cond(mspec, grid.shape_cells, bg)
+    sx, sy, sz, mur, epsr = conds
+    m = mspec['mapping']
+    props = [gen.map_forward(m, sx), gen.map_forward(m, sy),
+             gen.map_forward(m, sz), mur, epsr]
+    mapping = m
+    if form == 'scalar' and mspec['hetero'] != 'homog':
+        form = 'fortran'
+    if form == 'scalar':
+        # sx, sy, sz are constant arrays; mu_r / epsilon_r are not
+        props[:3] = [None if p is None else float(p.flat[0])
+                     for p in props[:3]]
+    elif form == 'fortran':
+        props = [None if p is None else np.asfortranarray(p) for p in props]
+    elif form == 'flat':
+        props = [None if p is None else p.ravel('F') for p in props]
+    elif form == 'mapinst':
+        mapping = getattr(emg3d.maps, 'Map'+m)()
+    model = emg3d.Model(grid, props[0], props[1], props[2], mu_r=props[3],
+                        epsilon_r=props[4], mapping=mapping)
+    return model, conds, form
+
+
+def _perturb_model(model, mspec, conds, rng, restore):
+    """Write other (restore=False) or the original (True) values into every
+    defined property of `model` through the documented setters."""
+    m = mspec['mapping']
+    names = ['property_x', 'property_y', 'property_z', 'mu_r', 'epsilon_r']
+    for name, c in zip(names, conds):
+        if c is None:
+            continue
+        v = c if restore else c*10.0**rng.uniform(-0.5, 0.5, size=c.shape)
+        if name.startswith('property'):
+            v = gen.map_forward(m, v)
+        setattr(model, name, v)
+
+
 def case_solve(spec, rec):
     import emg3d
     h, origin = gen.build_widths(spec['grid'])
@@ -175,90 +345,134 @@ def case_solve(spec, rec):
     freq = gen.freq_of(fs)
     s = gen.sval_of(fs)
     bg = gen.bg_cond(fs, spec['grid']['scale'])
-    model, (sx, sy, sz, mur, epsr) = gen.build_model(grid, spec['model'], bg)
+    model, (sx, sy, sz, mur, epsr), mform = _build_model(
+        emg3d, grid, spec['model'], bg, spec.get('mform', 'full'))
+    conds = (sx, sy, sz, mur, epsr)
+    mprov = spec.get('mprov', 'direct')
+    model = _provenance(emg3d, model, mprov)
     case = spec['model']['case']
     rsy = sy if case in ('HTI', 'triaxial') else sx
     rsz = sz if case in ('VTI', 'triaxial') else sx
     A, interior, *_ = refop.assemble(*h, sx, rsy, rsz, mur, epsr, s)
     absA = refop.absmat(A)
+    omit = [k for k in spec.get('omit', []) if k in DEFAULTS]
     cfg = dict(spec['cfg'])
+    for k in omit:
+        cfg[k] = DEFAULTS[k]
     skind, sf, src = _make_source(emg3d, grid, spec, freq)
     dt = sf.field.dtype
-    snorm = np.linalg.norm(sf.field)
-    if np.any(sf.field[~interior] != 0):
+    # the system the caller poses: the source as it is BEFORE any call
+    s0 = np.array(sf.field, copy=True)
+    snorm = np.linalg.norm(s0)
+    if np.any(s0[~interior] != 0):
         # outside the property's domain (source on the PEC boundary)
         rec.cls('source_on_boundary_skipped')
         return
+    sprov = spec.get('sprov', 'direct')
+    if sprov != 'direct':
+        _ = (sf.sval, sf.smu0, sf.fx.shape)      # lazily cached attributes
+        sf = _provenance(emg3d, sf, sprov)
 
     # ----- initial field -------------------------------------------------
     init = spec['init']
-    if skind == 'solve_source':
+    if skind == 'solve_source' and not spec.get('ss_init', False):
         init = 'none'
     ef = None
     if init == 'zeros':
         ef = emg3d.Field(grid, frequency=freq)
     elif init == 'random':
         ef = gen.random_field(grid, spec['seed'], freq, salt=73, pec=False)
-    elif init in ('exact', 'near'):
+    elif init in ('exact', 'near', 'exact_dirty', 'near_dirty'):
         ii = np.flatnonzero(interior)
         x = np.zeros(A.shape[0], dtype=dt)
         if snorm > 0:
             try:
-                x[ii] = spla.spsolve(A[ii][:, ii].tocsc(), sf.field[ii])
+                x[ii] = spla.spsolve(A[ii][:, ii].tocsc(), s0[ii])
             except Exception:
                 x[:] = 0
         if not np.all(np.isfinite(x)):
             x[:] = 0
-        if init == 'near':
+        if init.startswith('near'):
             rng = gen.rng_of(spec['seed'], 74)
             x = x*(1 + 1e-3*rng.standard_normal(x.size))
+        if init.endswith('_dirty'):
+            # good interior, but non-zero tangential boundary values
+            rng = gen.rng_of(spec['seed'], 77)
+            nb = int((~interior).sum())
+            v = rng.standard_normal(nb)
+            if np.iscomplexobj(x):
+                v = v + 1j*rng.standard_normal(nb)
+            x[~interior] = v*(np.abs(x).max() or 1.0)
         ef = emg3d.Field(grid, frequency=freq)
         ef.field[:] = x
     supplied = ef is not None
+    efreq = spec.get('efreq', 'same') if supplied else 'n/a'
+    if supplied and efreq == 'none':
+        # a Field without frequency information (documented: data + dtype)
+        ef = emg3d.Field(grid, np.array(ef.field, copy=True))
+    elif supplied and efreq == 'other':
+        # e.g. the result for a neighbouring frequency as starting guess
+        fac = 10.0**gen.rng_of(spec['seed'], 78).uniform(0.05, 1.0)
+        if gen.rng_of(spec['seed'], 79).random() < 0.5:
+            fac = 1/fac
+        ef = emg3d.Field(grid, np.array(ef.field, copy=True),
+                         frequency=freq*fac)
+    if supplied and ef.field.dtype != dt:
+        raise HarnessError("initial field of wrong dtype generated")
     prov = spec.get('prov', 'direct') if supplied else 'none'
     if supplied and prov != 'direct':
         # Fields reach solve() through many legitimate routes (a previous
         # result, a copy, a de-serialised or un-pickled object ...)
-        import copy as _copy
-        import pickle
         _ = (ef.fx.shape, ef.fy.shape, ef.fz.shape)      # components used
-        if prov == 'copy':
-            ef = ef.copy()
-        elif prov == 'dict':
-            ef = emg3d.Field.from_dict(ef.to_dict())
-        elif prov == 'pickle':
-            ef = pickle.loads(pickle.dumps(ef))
-        elif prov == 'deepcopy':
-            ef = _copy.deepcopy(ef)
+        ef = _provenance(emg3d, ef, prov)
 
     # ----- call ------------------------------------------------------------
-    kw = {k: cfg[k] for k in ('cycle', 'nu_init', 'nu_pre', 'nu_coarse',
-                              'nu_post', 'clevel', 'tol', 'maxit',
-                              'return_info', 'log')}
+    call = {k: cfg[k] for k in OMITTABLE if k not in omit}
     if cfg['plain']:
-        kw['plain'] = True
-    if supplied:
-        kw['efield'] = ef
+        call['plain'] = True
     eff_ssl = cfg['sslsolver']
     if cfg['plain'] and eff_ssl is True:
         eff_ssl = False
     invalid = (cfg['cycle'] is None and not eff_ssl)
+    reuse = spec.get('reuse', None)
     buf = io.StringIO()
     with contextlib.redirect_stdout(buf), warnings.catch_warnings():
         warnings.simplefilter('ignore')
+        # ----- optional earlier use of the same objects --------------------
+        pre = dict(plain=True, maxit=2, verb=-1)
+        if reuse == 'same_all':
+            emg3d.solve(model, sf, **pre)
+        elif reuse == 'new_freq':
+            rng = gen.rng_of(spec['seed'], 76)
+            fo = freq*10.0**rng.uniform(-1, 1)
+            if rng.random() < 0.6:
+                fo = -fo
+            emg3d.solve(model, gen.random_field(grid, spec['seed'], fo,
+                                                salt=75), **pre)
+        elif reuse == 'model_setter':
+            rng = gen.rng_of(spec['seed'], 76)
+            _perturb_model(model, spec['model'], conds, rng, False)
+            emg3d.solve(model, sf, **pre)
+            _perturb_model(model, spec['model'], conds, rng, True)
+        elif reuse == 'restart':
+            if supplied:
+                emg3d.solve(model, sf, efield=ef, **pre)
+            else:
+                ef = emg3d.solve(model, sf, **pre)
+                supplied = True
+                efreq = 'same'        # emg3d's own result for this source
+            if not np.all(np.isfinite(ef.field)):
+                rec.cls('restart_from_nonfinite_skipped')
+                return
+        if supplied:
+            call['efield'] = ef
+        buf.seek(0)
+        buf.truncate()
         try:
             if skind == 'solve_source':
-                ret = emg3d.solve_source(
-                    model, src, freq, sslsolver=cfg['sslsolver'],
-                    semicoarsening=cfg['semicoarsening'],
-                    linerelaxation=cfg['linerelaxation'], verb=cfg['verb'],
-                    **kw)
+                ret = emg3d.solve_source(model, src, freq, **call)
             else:
-                ret = emg3d.solve(
-                    model, sf, sslsolver=cfg['sslsolver'],
-                    semicoarsening=cfg['semicoarsening'],
-                    linerelaxation=cfg['linerelaxation'], verb=cfg['verb'],
-                    **kw)
+                ret = emg3d.solve(model, sf, **call)
         except ValueError as e:
             if invalid and 'At least `cycle` or `sslsolver`' in str(e):
                 rec.cls('invalid_config_rejected')
@@ -268,6 +482,8 @@ def case_solve(spec, rec):
         raise Violation("invalid_config_accepted",
                         "cycle=None with sslsolver=False did not raise")
     out = buf.getvalue()
+    ctx_txt = (f"init={init}, prov={prov}, efreq={efreq}, sprov={sprov}, "
+               f"mprov={mprov}, mform={mform}, reuse={reuse}, omit={omit}")
 
     # ----- documented return shape -----------------------------------------
     info = None
@@ -295,29 +511,59 @@ def case_solve(spec, rec):
                             f"expected Field, got {type(res)}")
 
     e = res.field
+    which = 'supplied' if supplied else 'returned'
+    # ----- what was reported, by every channel --------------------------------
+    printing = cfg['verb'] >= 0 and cfg['log'] >= 0
+    stored = (info is not None and cfg['verb'] >= 0 and cfg['log'] != 0 and
+              'log' not in omit)
+    rep = _reported(cfg, out, info)
+    rep_print = _parse_report(cfg['verb'], out) if printing else None
+    rep_log = None
+    if stored:
+        if not isinstance(info.get('log'), str):
+            raise Violation("log_missing", f"info['log'] = {info.get('log')!r}")
+        rep_log = _parse_report(cfg['verb'], info['log'])
     # ----- unconditional parts ------------------------------------------------
     comp = np.r_[res.fx.ravel('F'), res.fy.ravel('F'), res.fz.ravel('F')]
     if comp.shape != e.shape or not np.array_equal(comp, e, equal_nan=True):
         raise Violation(
-            f"field_components_detached:{'supplied' if supplied else 'returned'}:prov={prov}",
+            f"field_components_detached:{which}:prov={prov}",
             "Field.field and the components fx/fy/fz of the "
-            f"{'supplied' if supplied else 'returned'} field hold different "
+            f"{which} field hold different "
             f"values after solve (provenance {prov}, init={init}): max "
             f"|diff| {float(np.nanmax(np.abs(comp - e))):.3e}")
     if e.dtype != dt:
         raise Violation("dtype", f"result {e.dtype}, source {dt}")
-    if e.shape != sf.field.shape:
+    if e.shape != s0.shape:
         raise Violation("shape", "result has wrong size")
-    if np.any(e[~interior] != 0):
+    eb = e[~interior]
+    bad = eb != 0
+    if rep != 'success':
+        # NaN/inf everywhere (overflow of an un-preconditioned Krylov run) is
+        # not a PEC defect of a run that is not reported as success
+        bad &= np.isfinite(eb)
+    if np.any(bad):
         raise Violation(f"pec_violated:init={init}",
-                        "tangential boundary components are not zero")
+                        "tangential boundary components are not zero "
+                        f"({ctx_txt})")
     if skind == 'zero' or snorm == 0:
         if np.any(e != 0):
-            which = 'supplied' if supplied else 'returned'
             raise Violation(f"zero_source_nonzero_field:{which}",
                             f"zero source, but the {which} field has max "
                             f"|e| = {np.abs(e).max():.3e} (init={init})")
-    rep = _reported(cfg, out, info)
+    # frequency label of the result
+    if not supplied or efreq in ('same', 'none'):
+        sv = res.sval
+        ok = sv is not None and abs(complex(sv) - complex(s)) <= \
+            1e-12*abs(complex(s))
+        if supplied and efreq == 'none' and sv is None:
+            ok = True
+        if not ok:
+            raise Violation(
+                f"field_frequency:{which}:efreq={efreq}",
+                f"the {which} field has Laplace parameter {sv!r} "
+                f"(frequency {res.frequency!r}), the source {s!r} "
+                f"({ctx_txt})")
 
     # ----- info consistency -----------------------------------------------------
     if info is not None:
@@ -333,22 +579,35 @@ def case_solve(spec, rec):
             if ('* WARNING ::' in out) != (info['exit'] == 1):
                 raise Violation("warning_vs_exit",
                                 f"exit={info['exit']} but printed: {out!r}")
+        if rep_print is not None and rep_print != rep:
+            raise Violation(
+                f"report_mismatch:screen_vs_info:verb={cfg['verb']}",
+                f"info says {rep} (exit={info['exit']}, "
+                f"{info['exit_message']!r}), the screen says {rep_print}: "
+                f"{out[-400:]!r}")
+        if rep_log is not None and rep_log != rep:
+            raise Violation(
+                f"report_mismatch:log_vs_info:verb={cfg['verb']}",
+                f"info says {rep} (exit={info['exit']}, "
+                f"{info['exit_message']!r}), info['log'] says {rep_log}: "
+                f"{info['log'][-400:]!r}")
         if snorm > 0:
-            if abs(info['ref_error']-snorm) > 1e-12*snorm:
+            if abs(info['ref_error']-snorm) > 1e-10*snorm:
                 raise Violation("ref_error", f"{info['ref_error']} vs ||s||="
-                                             f"{snorm}")
+                                             f"{snorm} ({ctx_txt})")
             if info['tol'] != cfg['tol']:
                 raise Violation("tol_reported", f"{info['tol']}")
 
     # ----- the certificate -------------------------------------------------------
-    r = sf.field - A @ e
+    r = s0 - A @ e
     r[~interior] = 0
     rn = float(np.linalg.norm(r))
     floor = C_EPS*float(np.linalg.norm((absA @ np.abs(e) +
-                                        np.abs(sf.field))[interior]))
+                                        np.abs(s0))[interior]))
     finite = bool(np.all(np.isfinite(e)))
     sslname = 'bicgstab' if eff_ssl is True else eff_ssl
     meth = f"ssl={sslname}:cycle={cfg['cycle']}"
+    pr = None
     if rep == 'success' and snorm > 0:
         if not finite:
             raise Violation(f"success_with_nonfinite_field:{meth}",
@@ -358,7 +617,23 @@ def case_solve(spec, rec):
                 f"success_without_convergence:{meth}:source={skind}",
                 f"reported success but ||s-Ae||/||s|| = {rn/snorm:.3e} >= "
                 f"tol = {cfg['tol']:.3e} (floor {floor/snorm:.1e}); shape "
-                f"{shape}, init {init}")
+                f"{shape}, init {init} ({ctx_txt})")
+        if cfg['tol'] == 0:
+            raise Violation(
+                f"success_with_zero_tol:{meth}",
+                "tol=0 cannot be reached (||r|| < 0), but success is "
+                f"reported; ||s-Ae||/||s|| = {rn/snorm:.3e} ({ctx_txt})")
+        # printed figures describe the field
+        txt = out if printing else (info['log'] if stored else None)
+        pr = None if txt is None else _printed_rel_error(cfg['verb'], txt)
+        if pr is not None and finite:
+            pv, prec = pr
+            if not (abs(pv*snorm - rn) <= prec*rn + 1e-6*rn + 10*floor):
+                raise Violation(
+                    f"printed_error_not_of_field:{meth}:verb={cfg['verb']}",
+                    f"printed rel. error {pv:.3e}, but the {which} field "
+                    f"has ||s-Ae||/||s|| = {rn/snorm:.6e} (floor "
+                    f"{floor/snorm:.1e}; {ctx_txt})")
     if info is not None and snorm > 0 and finite:
         ae = info['abs_error']
         if info['exit'] == 0:
@@ -367,11 +642,21 @@ def case_solve(spec, rec):
                     f"abs_error_not_of_returned_field:{meth}",
                     f"abs_error={ae:.6e} but the returned field has "
                     f"||s-Ae|| = {rn:.6e} (it_ssl={info['it_ssl']}, "
-                    f"it_mg={info['it_mg']}, init={init})")
+                    f"it_mg={info['it_mg']}, init={init}; {ctx_txt})")
             if not (abs(info['rel_error'] - ae/snorm) <=
-                    1e-12*abs(ae/snorm)):
+                    1e-10*abs(ae/snorm)):
                 raise Violation("rel_error", "rel_error != abs_error/"
                                              "ref_error")
+            eac = np.atleast_1d(info['error_at_cycle'])
+            if not eff_ssl and info['it_mg'] >= 1:
+                # pure multigrid: 'absolute error after each cycle'; the
+                # last cycle produced the returned field
+                if not (abs(float(eac[-1])-rn) <= 1e-6*rn + 10*floor):
+                    raise Violation(
+                        f"error_at_cycle_not_of_returned_field:{meth}",
+                        f"error_at_cycle[-1]={float(eac[-1]):.6e} but the "
+                        f"returned field has ||s-Ae|| = {rn:.6e} "
+                        f"(it_mg={info['it_mg']}; {ctx_txt})")
     # ----- classification ---------------------------------------------------------
     its = None
     if info is not None:
@@ -381,17 +666,37 @@ def case_solve(spec, rec):
             f"laplace={fs['laplace']}", gen.regime(fs),
             f"lgamp={spec.get('lgamp', 0)}",
             f"return_info={cfg['return_info']}", f"verb={cfg['verb']}",
-            f"parity={'odd' if any(n % 2 for n in shape) else 'even'}")
+            f"parity={'odd' if any(n % 2 for n in shape) else 'even'}",
+            f"reuse={reuse}", f"sprov={sprov}", f"mprov={mprov}",
+            f"mform={mform}", f"efreq={efreq}",
+            "omit=" + ('none' if not omit else 'all' if
+                       len(omit) == len(OMITTABLE) else 'some'),
+            f"maxcells={'>12' if max(shape) > 12 else '<=12'}",
+            f"channels={'info' if info is not None else ''}"
+            f"{'+screen' if rep_print is not None else ''}"
+            f"{'+log' if rep_log is not None else ''}")
+    for k in omit:
+        rec.cls(f"omitted:{k}")
+    if cfg['tol'] < 1e-10:
+        rec.cls(f"tol={cfg['tol']:g}:reported={rep}")
+    if cfg['maxit'] == 50:
+        rec.cls("maxit=50")
+    if skind == 'solve_source' and supplied:
+        rec.cls("solve_source+efield")
+    if init.endswith('_dirty') and its is not None:
+        rec.cls(f"{init}:reported={rep}:it_mg+ssl={'0' if its == (0, 0) else '>0'}")
+    if pr is not None:
+        rec.cls("printed_figure_checked")
     if info is not None and info['exit'] == 1:
         rec.cls(f"fail={str(info['exit_message'])[:24]}")
     if (rep == 'success' and snorm > 0 and its is not None and
             (its[0] > 0 or its[1] > 0)):
-        rec.nt([list(shape), spec['cfg'], spec['seed'],
+        rec.nt([list(shape), spec['cfg'], omit, spec['seed'],
                 spec['grid']['seed']])
     rec.note({'shape': list(shape), 'source': skind, 'init': init,
               'reported': rep, 'its': its,
               'relres': None if snorm == 0 else rn/snorm,
-              'tol': cfg['tol']})
+              'tol': cfg['tol'], 'reuse': reuse, 'omit': omit})
 
 
 LARGE = [8, 12, 16, 16, 20, 24, 32, 40, 48]
